@@ -117,6 +117,57 @@ func leafStringMaxChars() *codec[pk.String] {
 	return c
 }
 
+// Every length: the alphabets above pick lengths around the VarInt boundary of the prefix only; an encoder or
+// decoder that stages short values in a fixed scratch buffer has its own boundary anywhere below that. Separate
+// shapes (as leafStringMaxChars) so that the alphabet indexes used under the combinators stay as they were.
+const everyLenMax = 300
+
+func leafStringEveryLen() *codec[pk.String] {
+	c := &codec[pk.String]{name: "String(every length 0..300)", kind: "String", n: everyLenMax + 1,
+		gen: func(i int) pk.String { return pk.String(strings.Repeat(string(rune('a'+i%26)), i)) },
+		ref: func(b []byte, v pk.String) []byte { return refwire.AppendString(b, string(v)) },
+		diff: func(want, got pk.String) string {
+			if want != got {
+				return "String.value"
+			}
+			return ""
+		},
+		show: func(v pk.String) string { return showStr(string(v)) }}
+	base := leafString()
+	c.np, c.prior = base.np, base.prior
+	return c
+}
+
+func leafIdentifierEveryLen() *codec[pk.Identifier] {
+	c := &codec[pk.Identifier]{name: "Identifier(every length 0..300)", kind: "Identifier", n: everyLenMax + 1,
+		gen: func(i int) pk.Identifier { return pk.Identifier(strings.Repeat(string(rune('a'+i%26)), i)) },
+		ref: func(b []byte, v pk.Identifier) []byte { return refwire.AppendString(b, string(v)) },
+		diff: func(want, got pk.Identifier) string {
+			if want != got {
+				return "Identifier.value"
+			}
+			return ""
+		},
+		show: func(v pk.Identifier) string { return showStr(string(v)) }}
+	base := leafIdentifier()
+	c.np, c.prior = base.np, base.prior
+	return c
+}
+
+func leafByteArrayEveryLen() *codec[pk.ByteArray] {
+	c := leafByteArray()
+	c.name, c.n = "ByteArray(every length 0..300)", everyLenMax+1
+	c.gen = func(i int) pk.ByteArray { return patBytes(i, i) }
+	return c
+}
+
+func leafPluginMessageDataEveryLen() *codec[pk.PluginMessageData] {
+	c := leafPluginMessageData()
+	c.name, c.n = "PluginMessageData(every length 0..300)", everyLenMax+1
+	c.gen = func(i int) pk.PluginMessageData { return patBytes(i, i+3) }
+	return c
+}
+
 func leafIdentifier() *codec[pk.Identifier] {
 	vals := []pk.Identifier{"minecraft:stone", "a:b", "minecraft:" + pk.Identifier(strings.Repeat("k", 118)), "x"}
 	c := leaf("Identifier", vals, func(b []byte, v pk.Identifier) []byte { return refwire.AppendString(b, string(v)) })
